@@ -108,7 +108,7 @@ func (c *FCtx) oblige(st *State, kind, name string, goal *Term, pos string) {
 	if n := c.oblSeen[full]; n > 1 {
 		full = fmt.Sprintf("%s#%d", full, n)
 	}
-	o := &Obligation{Name: full, Func: c.fi.Key, Kind: kind, Hyps: append([]*Term(nil), st.pc...), Goal: goal, Pos: pos, Variant: c.variant, Inputs: c.inputs}
+	o := &Obligation{Name: full, Func: c.fi.Key, Kind: kind, Hyps: append([]*Term(nil), st.pc...), Goal: stripVariants(goal), Pos: pos, Variant: c.variant, Inputs: c.inputs}
 	if c.rpCur != nil {
 		o.rp = c.rpCur
 	} else {
